@@ -124,6 +124,13 @@ int run_scan(const Args& a) {
             };
             // expected status
             bool bad = model_range_is_bad(lsv, le, rsv, re) || (r2l && (re != scan_endpoint::INF || max_size != 1));
+            if (bad && unknown_storage) {
+                // both rules apply; the documentation does not order them
+                if (rc != status::ERR_BAD_USAGE && rc != status::WARN_STORAGE_NOT_EXIST) {
+                    rep.violation("scan:bad-usage-and-unknown-storage-status", "neither ERR_BAD_USAGE nor WARN_STORAGE_NOT_EXIST", describe().str("got", st(rc)).done());
+                }
+                continue;
+            }
             if (bad) {
                 rep.count("bad_usage_cases");
                 if (rc != status::ERR_BAD_USAGE) {
